@@ -8,8 +8,9 @@
      - pins every lemma name the ledger may cite to an actual theorem of this development
        (`lemma_refs`: the file stops compiling when one of them disappears),
      - checks, by computation over the two generated lists, that every site has a reviewed entry
-       whose class is not OPEN - except the sites named in `known_open`, the undischarged
-       obligations that are recorded as open finding of C01 in known_findings.json. *)
+       whose class is not OPEN.  (Until repo commit 235518f three sites were OPEN - the u16 control
+       counter of outstation/control/collection.rs, finding F18 - and were excepted by name; the
+       counter is now saturating and the exception is gone.) *)
 From Coq Require Import List NArith Bool String Lia.
 From Dnp3V Require Import gen.PanicSites.
 From Dnp3V Require Import Base.Bytes Link.Parser Link.Reader Link.ParserIncr Link.ReaderProofs.
@@ -100,16 +101,7 @@ Definition lemma_refs :=
    @GrammarProofs.amk_range_some, @EventBufferProofs.no_underflow, @EventBufferProofs.counters_exact).
 
 (* ---------------------------------------------------------------------------------------------- *)
-(* The undischarged obligations (class OPEN in the ledger), named explicitly: the u16 control
-   counter of outstation/control/collection.rs (open finding of C01, corpus/C01, script f18).  A site is
-   allowed to be OPEN only if it is one of these. *)
-
-Definition known_open (s : panic_site) : bool :=
-  (ps_file s =? "outstation/control/collection.rs")%string
-  && match ps_kind s with KArith => true | _ => false end
-  && ((ps_fn s =? "select_header_with_response")%string
-      || (ps_fn s =? "operate_header_with_response")%string
-      || (ps_fn s =? "operate_header_no_ack")%string).
+(* The check: every site has an entry, no entry of a site is OPEN, every cited lemma is known. *)
 
 Definition class_open (c : reason_class) : bool := match c with COpen => true | _ => false end.
 
@@ -120,20 +112,20 @@ Definition class_lemma_known (c : reason_class) : bool :=
 Lemma ledger_complete_check :
   forallb (fun s =>
     existsb (fun e => (le_key e =? ps_key s)%N
-                      && (negb (class_open (le_class e)) || known_open s)
+                      && negb (class_open (le_class e))
                       && class_lemma_known (le_class e)) panic_ledger) panic_sites = true.
 Proof. vm_compute. reflexivity. Qed.
 
 Theorem ledger_complete : forall s, In s panic_sites ->
   exists e, In e panic_ledger /\ le_key e = ps_key s
-            /\ (le_class e = COpen -> known_open s = true)
+            /\ le_class e <> COpen
             /\ (forall n, le_class e = CLemma n -> In n discharging_lemmas).
 Proof.
   intros s Hs. pose proof ledger_complete_check as H. rewrite forallb_forall in H.
   specialize (H s Hs). apply existsb_exists in H. destruct H as [e [He Hc]].
   apply andb_true_iff in Hc. destruct Hc as [Hc Hl]. apply andb_true_iff in Hc. destruct Hc as [Hk Ho].
   exists e. split; [exact He|]. split; [apply N.eqb_eq; exact Hk|]. split.
-  - intro Hopen. rewrite Hopen in Ho. cbn [class_open negb orb] in Ho. exact Ho.
+  - intro Hopen. rewrite Hopen in Ho. cbn [class_open negb] in Ho. discriminate Ho.
   - intros n Hn. rewrite Hn in Hl. cbn [class_lemma_known] in Hl. apply existsb_exists in Hl.
     destruct Hl as [m [Hm Heq]]. apply String.eqb_eq in Heq. subst m. exact Hm.
 Qed.
@@ -142,7 +134,7 @@ Qed.
    count shows up as a failed proof and not only as a changed evidence file *)
 Lemma open_sites_check :
   length (filter (fun s =>
-    existsb (fun e => (le_key e =? ps_key s)%N && class_open (le_class e)) panic_ledger) panic_sites) = 3%nat.
+    existsb (fun e => (le_key e =? ps_key s)%N && class_open (le_class e)) panic_ledger) panic_sites) = 0%nat.
 Proof. vm_compute. reflexivity. Qed.
 
 (* no two sites share a key (a hash collision or a duplicated statement would let one review entry
